@@ -76,13 +76,14 @@ def check(prog: Program, tier: str) -> Result:
     _r4_n(prog, res)
     _r4_o(prog, res)
     _r4_q(prog, res)
+    _r4_r(prog, res)
     # R4.p: arithmetic / ordering on the value of a matched constant raises TypeError inside the formatter for 'a' or None
     # unless the selecting template pins the value type - decided by the C17 check (R17.9), adopted
     from . import c17 as _c17
     _tmp = Result("C17", "", "")
     _c17._r17_9(prog, _tmp)
     res.adopt(_tmp, {"R17.9"}, "R4.p", "an unpinned constant can be a str or None: the operation raises TypeError out of the rule and out of format_code")
-    res.floors.update({"R4.q": 30, "R4.p": 3, "R4.o": 2, "R4.n": 2, "R4.m": 2, "R4.a": 25, "R4.b": 200, "R4.c": 4, "R4.d": 18, "R4.e": 8, "R4.f": 40, "R4.h": 2, "R4.i": 2, "R4.j": 5, "R4.k": 1})
+    res.floors.update({"R4.r": 1, "R4.q": 30, "R4.p": 3, "R4.o": 2, "R4.n": 2, "R4.m": 2, "R4.a": 25, "R4.b": 200, "R4.c": 4, "R4.d": 18, "R4.e": 8, "R4.f": 40, "R4.h": 2, "R4.i": 2, "R4.j": 5, "R4.k": 1})
     return res
 
 
@@ -1155,6 +1156,68 @@ def _r4_q(prog: Program, res: Result) -> None:
         raise AnalysisError("no constant-index access to a list field found")
 
 
+def _r4_r(prog: Program, res: Result) -> None:
+    """Contradiction rule for computed indexes: if a function reads `A[e]` only under a test of the index variable against
+    len(A) (so it believes the index can be out of range) and reads `B[e]` - the same index expression, B a table built from
+    the same value as A - without any such test, one of the two is wrong.  Instance: every group of subscript reads with the
+    same non-constant index expression in one function in which at least one read is guarded by a length test."""
+    from ..defuse import bindings
+    from ..pathcond import PathAnalysis, entails
+    n_groups = 0
+    for fn in prog.funcs.values():
+        groups: Dict[str, List[ast.Subscript]] = {}
+        for x in walk_own(fn.node):
+            if isinstance(x, ast.Subscript) and isinstance(x.ctx, ast.Load) and isinstance(x.value, ast.Name) and not isinstance(x.slice, (ast.Slice, ast.Constant)) \
+                    and any(isinstance(v, ast.Name) for v in ast.walk(x.slice)):
+                groups.setdefault(norm(x.slice), []).append(x)
+        groups = {k: v for k, v in groups.items() if len({s_.value.id for s_ in v}) >= 2}
+        if not groups:
+            continue
+        pa = None
+        len_tests = [t for t in ast.walk(fn.node) if isinstance(t, ast.Compare) and len(t.ops) == 1 and isinstance(t.ops[0], (ast.Lt, ast.LtE, ast.Gt, ast.GtE))
+                     and any(isinstance(c, ast.Call) and isinstance(c.func, ast.Name) and c.func.id == "len" for c in [t.left] + t.comparators)]
+
+        def family(name: str) -> str:
+            """what the table was built from: the argument text of its single defining call"""
+            defs = [v for _s, v in bindings(fn).get(name, []) if v is not None]
+            if len(defs) == 1 and isinstance(defs[0], ast.Call) and defs[0].args:
+                return norm(defs[0].args[0])
+            return name
+        for key, subs in groups.items():
+            idx_vars = {v.id for v in ast.walk(subs[0].slice) if isinstance(v, ast.Name)}
+            pa = pa or PathAnalysis(prog, fn)
+            status = []
+            for s_ in subs:
+                worlds = pa.worlds_at(s_)
+                guard = None
+                for t in len_tests:
+                    tv = {v.id for v in ast.walk(t) if isinstance(v, ast.Name)}
+                    if not (tv & idx_vars):
+                        continue
+                    lens = [c.args[0] for c in [t.left] + t.comparators if isinstance(c, ast.Call) and isinstance(c.func, ast.Name) and c.func.id == "len" and c.args]
+                    if not any(isinstance(a, ast.Name) and family(a.id) == family(s_.value.id) for a in lens):
+                        continue
+                    for pol in (True, False):
+                        if worlds and all(entails(w.facts, pa.formula(t, w, pol)) for w in worlds):
+                            guard = (t, pol)
+                status.append((s_, guard))
+            guarded = [g for g in status if g[1] is not None]
+            if not guarded:
+                continue
+            n_groups += 1
+            fams = {family(s_.value.id) for s_, _g in status}
+            for s_, g in status:
+                if g is not None:
+                    res.ok("R4.r", fn.loc(s_), fn.fq, short(s_, 60), f"read under `{norm(g[0])}`" + (" (negated)" if not g[1] else ""))
+                elif family(s_.value.id) in {family(x_.value.id) for x_, gg in guarded}:
+                    res.bad("R4.r", fn.loc(s_), fn.fq, short(s_, 60),
+                            f"`{norm(guarded[0][0])}` is read only under `{norm(guarded[0][1][0])}` - the function expects the index `{key}` to run past the end - but `{norm(s_)}`, "
+                            f"a table built from the same `{family(s_.value.id)}`, is read with the same index without that test: IndexError for a position after the last line")
+                else:
+                    res.ok("R4.r", fn.loc(s_), fn.fq, short(s_, 60), "another table (not built from the same value): no stated belief about its length", trivial=True)
+    res.analysed["index_groups_with_a_length_test"] = n_groups
+
+
 def _r4_l(prog: Program, res: Result) -> None:
     """Parsing a SNIPPET: core.parse / ast.parse of a text that is not the function's own text parameter (the spelling of
     one literal, an uncommented comment block, ...) raises SyntaxError unless the snippet was validated first.  A
@@ -1460,6 +1523,12 @@ class ValidPA(PathAnalysis):
 from ..selftest import Variant  # noqa: E402
 
 VARIANTS = [
+    Variant("line-start-table-read-past-the-end", "FIRE", "core",
+            "    if lineno > len(lines):\n        return len(source)  # After the last line, where something may be inserted\n\n    line = lines[lineno - 1]\n",
+            "    line = lines[lineno - 1] if lineno <= len(lines) else \"\"\n", "R4.r"),
+    Variant("both-line-tables-read-under-the-test", "SILENT", "core",
+            "    if lineno > len(lines):\n        return len(source)  # After the last line, where something may be inserted\n\n    line = lines[lineno - 1]\n",
+            "    if not lineno <= len(lines):\n        return len(source)\n\n    line = lines[lineno - 1]\n"),
     Variant("append-without-argument-indexed", "FIRE", "fixes",
             "        if any(\n            m[0].value.func.attr in {\"append\", \"add\"} and len(m[0].value.args) != 1\n            for m in matches\n        ):\n            continue  # x.append() and x.add(1, 2) raise TypeError when they run, there is no element\n\n", "", "R4.q"),
     Variant("template-no-longer-pins-the-argument-list", "FIRE", "performance",
